@@ -102,6 +102,18 @@ Proof.
   exact (quartic_exact K _ _ _ _ _ _ _ _ (Fth K) (feq_dec K) (fchar0 K) (fsqrt K) (fcbrt K) (fi K) Hs Hc Hi).
 Qed.
 
+Lemma K_quartic_exact_local :
+  forall c0 c1 c2 c3 c4, ~ (c4 == 0)%Q ->
+  (forall e, In e (quartic_radicals c0 c1 c2 c3 c4) -> rad_okK K e) ->
+  forall alt, In alt (quartic_alts c0 c1 c2 c3 c4) ->
+  forall x, pevalK K [c0; c1; c2; c3; c4] x = f0 K <-> valsK K alt x.
+Proof. exact (quartic_exact_local K _ _ _ _ _ _ _ _ (Fth K) (feq_dec K) (fchar0 K) (fsqrt K) (fcbrt K) (fi K)). Qed.
+
+Lemma K_solve_poly_exact_local :
+  forall cs s, (forall e, In e (solve_poly_radicals cs) -> rad_okK K e) ->
+  solve_poly cs = Ok s -> sres_specK K cs s.
+Proof. exact (solve_poly_exact_local K _ _ _ _ _ _ _ _ (Fth K) (feq_dec K) (fchar0 K) (fsqrt K) (fcbrt K) (fi K)). Qed.
+
 Lemma K_solve_poly_exact : radicals_total K ->
   forall cs s, solve_poly cs = Ok s -> sres_specK K cs s.
 Proof.
